@@ -8,6 +8,21 @@ HERE = os.path.dirname(os.path.dirname(os.path.abspath(__file__)))
 
 # id -> (technique, level text, level note, design ref)
 CLAIMS = {
+    "C19": (
+        "table agreement between __getstate__ and __setstate__ (set comparison of removed / re-created attributes and "
+        "keys); ownership rule for cffi data; writer/reader agreement of the dump payload; package-wide source "
+        "discipline lints for randomness, set iteration and module-level state; purity (effect) check of dumping events; "
+        "config rule on dumping taggers",
+        "Decides necessary structural conditions of 'resume = never interrupted': every attribute a class drops from its "
+        "pickle is rebuilt (C heap, C potential with the constructor arguments of __init__, handles), no cffi data is "
+        "pickled, the dumped list and the resumed tuple agree item by item and everything is restored before run(), "
+        "all randomness flows through the dumped module-level generator, no set-iteration order that can differ between "
+        "processes reaches the commit path, no run-time module state lives outside the dumped modules, and dumping events "
+        "are pure and isolated in every shipped .ini. Bit-equality of the resumed trajectory (dill, heap layout after "
+        "re-insertion, file handles) is not decided.",
+        "Trusted: the frozen tables SET_ITERATION_OK / GLOBAL_OK_* in jfsa/props/c19.py (each entry confirmed by reading, "
+        "one reason per line); dill pickles the setting and uuid modules as the repository relies on.",
+        "DESIGN.md section 3, C19"),
     "C06": (
         "abstract interpretation of heap.c in the zone (difference-bound) domain over the clang JSON AST under a "
         "data-structure invariant; exhaustive comparison truth tables over the finite ordering domain for the C sift "
